@@ -204,6 +204,12 @@ func genDUID(r *Rng) dhcpv6.DUID {
 		return d
 	default:
 		t := r.Pick([]int{0, 5, 6, 255, 65535})
+		if r.Bool() {
+			// values that are special to nobody - unless a change makes them so: the
+			// registered types with their octets swapped, their neighbours, anything
+			// (seeded change C02-17: type 0x0300 read as a DUID-LL "in host byte order")
+			t = r.Pick([]int{0x0100, 0x0200, 0x0300, 0x0400, 7, 8, 0x0101, 0x0301, 5 + r.Intn(65531)})
+		}
 		// RFC 8415: 1..128 octets after the type code (0 and 129+ only via the malformed wire streams)
 		return &dhcpv6.DUIDOpaque{Type: dhcpv6.DUIDType(t), Data: r.Bytes(r.Pick([]int{1, 2, 20, 128, r.Range(1, 128)}))}
 	}
@@ -211,6 +217,38 @@ func genDUID(r *Rng) dhcpv6.DUID {
 
 var knownCodes6 = []int{1, 2, 3, 4, 5, 6, 8, 9, 13, 15, 16, 17, 18, 23, 24, 25, 26, 32, 37, 39, 56, 59, 60, 61, 62, 79, 87, 88, 97, 98, 99, 135}
 var unknownCodes6 = []int{0, 7, 10, 11, 12, 14, 19, 20, 21, 31, 64, 82, 100, 136, 255, 256, 4242, 65535}
+
+// pickUnknownCode6: half of the time one of the fixed codes above, otherwise a known
+// code with its octets swapped (1 -> 0x0100 ...) or any 16-bit code the ParseOption
+// switch of the source does not handle.
+func pickUnknownCode6(r *Rng) int {
+	if r.Bool() {
+		return r.Pick(unknownCodes6)
+	}
+	handled := func(c int) bool {
+		for _, k := range knownCodes6 {
+			if k == c {
+				return true
+			}
+		}
+		for _, k := range newCodes6 {
+			if k == c {
+				return true
+			}
+		}
+		return false
+	}
+	for {
+		c := r.Intn(65536)
+		if r.Bool() {
+			k := r.Pick(knownCodes6)
+			c = (k&0xff)<<8 | k>>8
+		}
+		if !handled(c) {
+			return c
+		}
+	}
+}
 
 func genStatus(r *Rng) dhcpv6.Option {
 	return &dhcpv6.OptStatusCode{StatusCode: iana.StatusCode(r.Pick([]int{0, 1, 2, 6, 65535})), StatusMessage: string(genData(r, 0, 12))}
@@ -469,7 +507,7 @@ func genMsg6(r *Rng, depth int, loose bool) dhcpv6.DHCPv6 {
 	for i := 0; i < n; i++ {
 		var code int
 		if r.Chance(1, 6) {
-			code = r.Pick(unknownCodes6)
+			code = pickUnknownCode6(r)
 		} else {
 			code = r.Pick(knownCodes6)
 		}
